@@ -1684,6 +1684,7 @@ func decoderRules(c *Ctx, prop string) {
 		r.Rule("C07/TS-SYNC", "where a decoder flushes its buffer when the packet timestamp differs from a recorded one, every growth of that buffer leaves the recorded timestamp equal to the packet's (otherwise one damaged unit makes every later packet look like a new unit)", 2)
 		r.Rule("C07/ERR-RESETS", "a packet that is refused with an error while a fragment chain may be in progress discards the chain: every error return of a Decoder method is reached through a reset of the chain or through the edge on which the chain is known to be empty (otherwise, after a lost fragment, packets of the refused kind are refused for ever and the decoder never resynchronises)", 10)
 		r.Rule("C07/ROLE-TABLE", "every persistent slice field of a Decoder has a reviewed role (fragment chain or unit list) that agrees with its usage", 16)
+		r.Rule(prop+"/RESET-ACCUMULATORS", "wherever a Decoder empties a persistent buffer outside its reset helper, the integer accumulators that the helper zeroes (buffered size, buffered count) are zeroed as well before the function returns: otherwise the caps of the following units are measured against stale totals", 0)
 		r.Rule("C07/ACC-SYNC", "every reset helper of a fragment chain also zeroes the chain's size accumulator, so 'accumulator == 0' means no stale bytes", 9)
 	}
 	ndec := 0
@@ -1741,6 +1742,71 @@ func decoderRules(c *Ctx, prop string) {
 			}
 			if prop == "C07" && chain {
 				m.errResets(c, short, f)
+			}
+			if prop == "C07" {
+				// RESET-ACCUMULATORS: the size/count accumulators that the reset helper of f zeroes are zeroed
+				// wherever else f is emptied
+				helperOf := map[*ssa.Function]bool{}
+				accs := map[*types.Var]bool{}
+				for _, s := range stores {
+					if (s.kind == skResetNil || s.kind == skResetTrunc) && len(s.fn.Params) == 1 {
+						grows := false
+						for _, s2 := range stores {
+							if s2.fn == s.fn && (s2.kind == skGrow || s2.kind == skTruncGrow) {
+								grows = true
+							}
+						}
+						if grows {
+							continue
+						}
+						helperOf[s.fn] = true
+						for _, b := range s.fn.Blocks {
+							for _, in := range b.Instrs {
+								if st, ok := in.(*ssa.Store); ok && isZeroConst(st.Val) {
+									if _, ff := isDecoderRecvField(st.Addr, m.decoder); ff != nil && isIntField(ff) {
+										accs[ff] = true
+									}
+								}
+							}
+						}
+					}
+				}
+				for _, s := range stores {
+					if (s.kind != skResetNil && s.kind != skResetTrunc) || helperOf[s.fn] || len(accs) == 0 {
+						continue
+					}
+					for a := range accs {
+						a := a
+						zeroed := func(in ssa.Instruction) bool {
+							if st, ok := in.(*ssa.Store); ok {
+								_, ff := isDecoderRecvField(st.Addr, m.decoder)
+								if ff != a {
+									return false
+								}
+								// zeroed, or set afresh to the size of the new content (anything but an increment of itself)
+								if bo, ok := st.Val.(*ssa.BinOp); ok && bo.Op == token.ADD {
+									if loadOfField(bo.X, m.decoder) == a || loadOfField(bo.Y, m.decoder) == a {
+										return false
+									}
+								}
+								return true
+							}
+							if cl, ok := in.(*ssa.Call); ok {
+								if cal := cl.Call.StaticCallee(); cal != nil && helperOf[cal] {
+									return true
+								}
+							}
+							return false
+						}
+						found, path, _ := core.PathAvoiding(s.fn, s.st, core.IsReturn, zeroed)
+						construct := fmt.Sprintf("%s %s empties %s and zeroes %s", short, fnShort(s.fn), core.FieldName(f), a.Name())
+						if found {
+							r.FailPath(prop+"/RESET-ACCUMULATORS", construct, p.Pos(s.st.Pos()), "the buffer is emptied here without zeroing "+a.Name()+", which its reset helper zeroes: the next unit is measured against the total of the previous one (intact units are refused as too big; or, with the counter stale, the cap is reached early for ever)", core.BlockPath(p, s.fn, path))
+						} else {
+							r.OK(prop+"/RESET-ACCUMULATORS", construct, p.Pos(s.st.Pos()), "accumulator zeroed on every path to the return")
+						}
+					}
+				}
 			}
 			if prop == "C07" && chain {
 				// ACC-SYNC: resetters of f zero every int accumulator that is compared with 0 as an emptiness test
